@@ -38,6 +38,7 @@ struct acc_t
     std::optional<w_sender> ws;
     std::atomic<int> granted{0};
     std::atomic<int> released{0};
+    std::atomic<int> releasing{0};    // set right before the release (duel histories synchronise on it)
     std::optional<mutex_t::read_access_type> rw_held, rw_copy;
     std::optional<mutex_t::readwrite_access_type> ww_held;
 };
@@ -87,6 +88,15 @@ int main(int argc, char** argv)
         int n = 2 + (int) R.below(9);
         int nthr = 1 + (int) R.below(4);
         bool destroy_early = R.chance(1, 3);
+        // duel: one thread per access; access k is started right when access k-1 has been granted,
+        // i.e. while its owner is about to release it (start races with done() of the previous state)
+        bool duel = R.chance(1, 3);
+        if (char const* e = std::getenv("VERIF_RW_DUEL")) duel = std::atoi(e) != 0;
+        if (duel)
+        {
+            n = 2 + (int) R.below(5);
+            nthr = n;
+        }
         ev("init").i("n", n).done();
         auto mtx = std::make_unique<mutex_t>(0);
         std::vector<std::unique_ptr<acc_t>> acc;
@@ -97,8 +107,13 @@ int main(int argc, char** argv)
             a->is_w = R.chance(2, 5);
             a->action = (int) R.below(8) == 0 ? 1 : ((int) R.below(4) == 0 ? 2 : 0);
             a->thread = (int) R.below(nthr);
-            a->delay = (int) R.below(4);
-            a->hold = (int) R.below(4);
+            if (duel)
+            {
+                a->thread = i - 1;
+                a->action = a->action == 1 ? 0 : a->action;
+            }
+            a->delay = (int) R.below(duel ? 12 : 4);
+            a->hold = (int) R.below(duel ? 8 : 4);
             ev("request").i("i", i).s("k", a->is_w ? "W" : "R").done();
             if (a->is_w) a->ws.emplace(mtx->readwrite());
             else a->rs.emplace(mtx->read());
@@ -125,6 +140,15 @@ int main(int argc, char** argv)
                     if (a->thread == t) mine.push_back(a.get());
                 for (acc_t* a : mine)
                 {
+                    if (duel && a->i > 1)
+                    {
+                        // sweep the start across the release of the previous access
+                        if (a->delay & 1)
+                            while (!acc[a->i - 2]->granted.load()) {}
+                        else
+                            while (!acc[a->i - 2]->releasing.load()) {}
+                        for (int d = 0; d < a->hold * a->delay * 25; ++d) asm volatile("" ::: "memory");
+                    }
                     for (int d = 0; d < a->delay * 30; ++d) asm volatile("" ::: "memory");
                     if (a->action == 1)
                     {
@@ -168,6 +192,8 @@ int main(int argc, char** argv)
                             a->rw_held.reset();
                             if (a->rw_copy->get() < 0) std::abort();
                         }
+                        a->releasing = 1;
+                        for (int d = 0; d < (duel ? a->delay * 20 : 0); ++d) asm volatile("" ::: "memory");
                         ev("release").i("i", a->i).done();
                         a->rw_held.reset();
                         a->rw_copy.reset();
